@@ -46,7 +46,7 @@ RULES = {
 }
 
 def sh(cmd, **kw):
-    return subprocess.run(cmd, shell=isinstance(cmd, str), stdout=subprocess.PIPE, stderr=subprocess.STDOUT, text=True, **kw)
+    return subprocess.run(cmd, shell=isinstance(cmd, str), stdout=subprocess.PIPE, stderr=subprocess.STDOUT, text=True, errors='replace', **kw)
 
 def load_known():
     p = os.path.join(ROOT, 'known_findings.json')
@@ -100,15 +100,18 @@ def main():
     runs = int(os.environ.get('VERIF_RUNS', cfg[tier]))
     t0 = time.time()
     # ---- build against the current working tree of /repo ----
-    b = sh(['make', '-C', ROOT, '-j%d' % jobs, 'build/%s/sim' % cfg['build']])
+    # VERIF_REPO / VERIF_BUILD: run the same check against a scratch worktree (mutation testing); defaults are /repo and build/
+    repo = os.environ.get('VERIF_REPO', '/repo')
+    bdir = os.environ.get('VERIF_BUILD', 'build')
+    b = sh(['make', '-C', ROOT, '-j%d' % jobs, 'REPO=' + repo, 'BUILD=' + bdir, '%s/%s/sim' % (bdir, cfg['build'])])
     if b.returncode != 0:
         print(b.stdout[-4000:])
         print('ENGINE-ERROR build failed')
         return 2
     build_s = time.time() - t0
-    sim = os.path.join(ROOT, 'build', cfg['build'], 'sim')
+    sim = os.path.join(ROOT, bdir, cfg['build'], 'sim')
     rdir = os.path.join(ROOT, 'replays')
-    tmp = os.path.join(ROOT, 'build', 'run', prop)
+    tmp = os.path.join(ROOT, bdir, 'run', prop)
     os.makedirs(rdir, exist_ok=True)
     os.makedirs(tmp, exist_ok=True)
     for f in glob.glob(os.path.join(tmp, '*')):
@@ -116,10 +119,13 @@ def main():
     # ---- batch ----
     procs = []
     nworkers = min(jobs, max(1, runs))
+    env = dict(os.environ)
+    # batch workers do not symbolize sanitizer reports (slow); the fresh-process replay of a violation does
+    env.setdefault('TSAN_OPTIONS', 'symbolize=0')
     for w in range(nworkers):
         cmd = [sim, '--prop', prop, '--tier', tier, '--seed', str(seed), '--runs', str(runs), '--worker', str(w), '--nworkers', str(nworkers),
-               '--seconds', str(TIME_CAP[tier]), '--shapes', os.path.join(tmp, 'shapes.%d' % w), '--replay-dir', rdir, '--selfcheck', '50']
-        procs.append(subprocess.Popen(cmd, stdout=subprocess.PIPE, stderr=open(os.path.join(tmp, 'stderr.%d' % w), 'w'), text=True, cwd=ROOT))
+               '--seconds', str(TIME_CAP[tier]), '--shapes', os.path.join(tmp, 'shapes.%d' % w), '--replay-dir', rdir, '--selfcheck', '50', '--max-reports', '3']
+        procs.append(subprocess.Popen(cmd, stdout=subprocess.PIPE, stderr=open(os.path.join(tmp, 'stderr.%d' % w), 'w'), text=True, errors='replace', cwd=ROOT, env=env))
     summaries, candidates, engine_errors = [], [], []
     for w, p in enumerate(procs):
         out, _ = p.communicate()
